@@ -1,19 +1,20 @@
 import Q1t.Proofs.DetShapePartN1
+import Q1t.Proofs.DetShapePartC2
 /-!
 Assembly of `DetShapeHolds` for the generated tables.
 
-`PartN1` is proved (`DetShapePartN1*.lean`).  Until the other part files exist, `detShapeHolds_of_remaining` takes
-them as hypotheses; when `DetShapePartI/N2/G/K/C.lean` compile, import them here and replace the body of the final
-theorem by
+Proved so far: `PartN1` (`DetShapePartN1*.lean`), `PartC` (`DetShapePartC2*.lean`, elementary pigeonhole route).
+Until the other part files are complete, `detShapeHolds_of_remaining` takes them as hypotheses; when
+`DetShapePartI/N2/G/K.lean` compile with `partI`, `partN2`, `partG`, `partK`, import them here and add
 
-  `detShapeHolds_generated (n) : DetShapeHolds (α := Q8) (A := Empty) n phG tblG ncG :=
-     detShapeHolds_of_remaining n (partI n) partN2 (partG n) partK partC`
+  `theorem detShapeHolds_generated (n) : DetShapeHolds (α := Q8) (A := Empty) n phG tblG ncG :=
+     detShapeHolds_of_remaining n (partI n) partN2 (partG n) partK`
 -/
 namespace Q1t.Proofs.DetPlan
 open Q1t Q1t.Proofs.TabG
 
-theorem detShapeHolds_of_remaining (n : Nat) (hI : PartI n) (hN2 : PartN2) (hG : PartG n) (hK : PartK) (hC : PartC) :
+theorem detShapeHolds_of_remaining (n : Nat) (hI : PartI n) (hN2 : PartN2) (hG : PartG n) (hK : PartK) :
     DetShapeHolds (α := Q8) (A := Empty) n phG tblG ncG :=
-  detShapeHolds_of_parts n hI (partN_of partN1 hN2) hG hK hC
+  detShapeHolds_of_parts n hI (partN_of partN1 hN2) hG hK partC2
 
 end Q1t.Proofs.DetPlan
